@@ -838,7 +838,7 @@ func (fr *frame) pseudoAt(key string, site ssa.Instruction, args []TV, st *State
 		return
 	}
 	// only in the function under contract itself and in its closures (not in inlined callees)
-	if !fr.isTop && fr.fn.Parent() == nil {
+	if !fr.isTop && !fr.transparent && fr.fn.Parent() == nil {
 		return
 	}
 	for _, at := range s.FC.Ats {
@@ -851,7 +851,13 @@ func (fr *frame) pseudoAt(key string, site ssa.Instruction, args []TV, st *State
 			env.vars["$"+strconv.Itoa(i)] = a
 		}
 		blk := site.Block()
-		env.local = func(name string) (TV, bool) { return fr.lookupLocalBefore(name, blk, site, st) }
+		env.localFirst = fr.transparent
+		env.local = func(name string) (TV, bool) {
+			if fr.transparent {
+				return fr.resolveName(name, blk, site, st)
+			}
+			return fr.lookupLocalBefore(name, blk, site, st)
+		}
 		prevErr := s.Err
 		g := s.evalBool(env, at.C.E)
 		src := at.C.Src
